@@ -26,9 +26,15 @@ type stream struct {
 	failAt   int // >=0: the write that would pass this offset fails (bytes up to it are delivered)
 	readOff  int
 	sink     bool // never delivered to a reader, only logged
+	waitN    int  // WaitIncoming: number of logged writes waited for
 }
 
-func (s *stream) readable() bool { return len(s.buf) > 0 || s.wclosed || s.rclosed }
+func (s *stream) readable() bool {
+	if s.waitN > 0 {
+		return len(s.Log) >= s.waitN || s.wclosed || s.rclosed
+	}
+	return len(s.buf) > 0 || s.wclosed || s.rclosed
+}
 
 // SegPolicy decides how many of the n available bytes (n>=1) the next Read
 // returns (at most want). It may call Choose.
@@ -227,6 +233,18 @@ func (c *End) Inject(p []byte) {
 		return
 	}
 	c.wr.push(ex, p)
+}
+
+// WaitIncoming blocks (a scheduling point) until at least n writes have been made
+// towards this end or the peer has closed; it consumes nothing.
+func (c *End) WaitIncoming(n int) {
+	e := ex
+	if e == nil || e.dead {
+		return
+	}
+	c.rd.waitN = n
+	e.point(op{kind: KRead, st: c.rd})
+	c.rd.waitN = 0
 }
 
 // ReadOffset returns how many bytes this end has read so far.
